@@ -48,6 +48,7 @@ class Renames:
                 digests = json.load(fh)
         except OSError:
             digests = {}
+        baseline = set(digests.pop('*functions', []))
         orphans = {k: d for k, d in digests.items() if k not in model.funcs}
         if orphans:
             by_digest = {}
@@ -58,5 +59,32 @@ class Renames:
                 if len(cands) == 1:
                     self.map[cands[0].key] = old
 
+        # Extract-function tolerance: a NEW function (not in the recorded baseline) that is referenced from exactly one other
+        # function F takes over F's reason entries (they are keyed by construct, and the construct moved together with the
+        # code; the only caller still decides what reaches it).  Again only ever used to keep a justification attached.
+        if baseline:
+            table_funcs = set(digests)
+            new = [f for f in model.funcs.values() if f.key not in baseline and f.key not in self.map and f.parent is None]
+            if new:
+                refs = {}
+                for g in model.funcs.values():
+                    names = {x.id for x in ast.walk(g.node) if isinstance(x, ast.Name)} | {x.attr for x in ast.walk(g.node) if isinstance(x, ast.Attribute)}
+                    for f in new:
+                        if f.name in names and g.key != f.key and (g.parent is None or g.parent.key != f.key):
+                            refs.setdefault(f.key, set()).add(g.key if g.parent is None else _root(g).key)
+                for f in new:
+                    callers = refs.get(f.key, set()) - {f.key}
+                    if len(callers) == 1:
+                        caller = next(iter(callers))
+                        ck = self.map.get(caller, caller)
+                        if ck in table_funcs and caller.split(':')[0] == f.key.split(':')[0]:
+                            self.map[f.key] = ck
+
     def key(self, k):
         return self.map.get(k, k)
+
+
+def _root(f):
+    while f.parent is not None:
+        f = f.parent
+    return f
